@@ -20,7 +20,8 @@ _cnt = itertools.count()
 
 
 def args_of(ex, e):
-    return [ex.ev(a) for a in e.args], {k.arg: ex.ev(k.value) for k in e.keywords}
+    # f(..., **kw): the mapping is passed on as one value under the name '**'
+    return [ex.ev(a) for a in e.args], {(k.arg if k.arg is not None else '**'): ex.ev(k.value) for k in e.keywords}
 
 
 def seq_term(ex, sv, node, what='sequence'):
@@ -721,6 +722,10 @@ def bi_nfields(ex, e):
     return V(VInt(z3.Length(get_fields(ex.evv(e.args[0])))))
 
 
+def bi_truthy(ex, e):
+    return mk_bool(as_bool(ex.ev(e.args[0])))
+
+
 def bi_aln_marker(ex, e):
     """aln_marker('Alignment', text) = Alignment.from_string(text)"""
     s = get_s(ex.evv(e.args[1]))
@@ -1051,6 +1056,8 @@ def object_method(ex, obj, name, e):
         return ex.call_contract('penman.tree', 'Tree.' + name, (args, kw), e, self_obj=obj)
     if obj.cls == 'TokenIterator':
         return ex.call_contract('penman._lexer', 'TokenIterator.' + name, (args, kw), e, self_obj=obj)
+    if obj.cls == 'Opaque':
+        return ex.call_contract('penman.tree', 'Tree.' + name, (args, kw), e, self_obj=obj)
     raise Unsupported('method %s.%s' % (obj.cls, name))
 
 
